@@ -67,6 +67,8 @@ func PathValues(p protopath.Path, m proto.Message) (protopath.Values, error) {
 			if !fd.IsMap() {
 				return protopath.Values{}, fmt.Errorf("%d: cursor descriptor %T is not a map", i, fd)
 			}
+			// The cursor moves to the map's value, so its descriptor does too.
+			desc = fd.MapValue().Message()
 			// If MapIndex is the wrong type for Map, we can't detect that and this will panic.
 			cursor = cursor.Map().Get(step.MapIndex())
 			if !cursor.IsValid() {
